@@ -4,6 +4,8 @@ import Poly.Model.EthHeaderRlp
 import Poly.Model.PoW
 import Poly.Model.EthDeposit
 import Poly.Model.PoWBtc
+import Poly.Model.ProofJson
+import Poly.Model.BtcRetarget
 /- Driver for the Ethereum light-client families. `drv_eth <family>` reads op lines on stdin.
    ethrules (C28): header rules; pow (C27): PoW fork choice; evm (C23): deposit proof decision. -/
 open Poly
@@ -238,24 +240,21 @@ def storageProofsOf : List String → List StorageProof
 
 def step (st : PowDrv.St) (toks : List String) : PowDrv.St × String :=
   match toks with
-  | "deposit" :: btw :: height :: ccmc :: json :: addr :: bal :: code :: nonce :: sh :: ap :: nsp :: rest =>
+  | ["deposit", btw, height, ccmc, json, extra, ktab, vptab] =>
     match st.store with
     | none => (st, "bad-op")
     | some s =>
-      let n := EthRulesDrv.nat nsp
-      let sps := storageProofsOf (rest.take (2 * n))
-      match rest.drop (2 * n) with
-      | [extra, ktab, vptab] =>
-        let proof : Option EthProof :=
-          if json == "json=ok" then some ⟨strOf addr, strOf bal, strOf code, strOf nonce, strOf sh, listOf ap, sps⟩ else none
+        -- the proof arrives as the raw JSON text (hex after `j:`) and is unmarshalled by the model
+        let raw := (Proto.bytesOf ((json.drop 2).toString |> fun x => if x.isEmpty then "-" else x)).map fun b => Char.ofNat b.toNat
+        let proof : Option EthProof := Poly.Model.ProofJson.unmarshalProof raw
         let K := kOf (tableOf ktab)
         let vp := vpOf (tableOf vptab)
-        -- the quorum router's proof check against the main-chain block of that height (when there is one)
+        -- the quorum router's MakeDepositProposal with a (valid) header committing to the main-chain block of that height
         let quorum := match headerByHeight s (EthRulesDrv.nat height) with
           | none => "na"
           | some blk =>
-            match verifyFromQuorumTx K vp blk.hdr.rules.2.2 (Proto.bytesOf ccmc) proof (Proto.bytesOf extra) with
-            | .ok _ => "ok"
+            match quorumMakeDeposit K vp blk.hdr.rules.2.2 (Proto.bytesOf ccmc) proof (Proto.bytesOf extra) with
+            | .ok p => "ok:" ++ showParam p
             | .error e => "reject:" ++ showReject e
         -- the seven sibling routers carry the same decision logic (clone check + executed on a mirrored state by the harness)
         let tail := " siblings=agree quorum=" ++ quorum
@@ -263,7 +262,6 @@ def step (st : PowDrv.St) (toks : List String) : PowDrv.St × String :=
             (Proto.bytesOf ccmc) proof (Proto.bytesOf extra) with
         | .ok p => (st, "ok:" ++ showParam p ++ tail)
         | .error e => (st, "reject:" ++ showReject e ++ tail)
-      | _ => (st, "bad-op")
   | _ => PowDrv.step st toks
 
 end EvmDrv
@@ -362,10 +360,27 @@ def step (st : St) (toks : List String) : St × String :=
 
 end BtcDrv
 
+namespace BtcDiffDrv
+open Poly.Model.BtcRetarget
+
+def powLimit (net : String) : Int :=
+  if net == "main" then 2 ^ 224 - 1 else if net == "test3" then 2 ^ 224 - 1 else 2 ^ 255 - 1
+
+def step (_ : Unit) (toks : List String) : Unit × String :=
+  match toks with
+  | ["adj", net, s, e, bits] =>
+    ((), toString (calcDiffAdjust (EthRulesDrv.nat s) (EthRulesDrv.nat e) (EthRulesDrv.nat bits) (powLimit net)))
+  | ["tobig", bits] => ((), toString (compactToBig (EthRulesDrv.nat bits)))
+  | ["tocompact", n] => ((), toString (bigToCompact (EthRulesDrv.int n)))
+  | _ => ((), "bad-op")
+
+end BtcDiffDrv
+
 def main (args : List String) : IO Unit :=
   match args with
   | ["ethrules"] => Proto.run () EthRulesDrv.step
   | ["pow"] => Proto.run ({} : PowDrv.St) PowDrv.step
   | ["evm"] => Proto.run ({} : PowDrv.St) EvmDrv.step
   | ["powbtc"] => Proto.run ({} : BtcDrv.St) BtcDrv.step
+  | ["btcdiff"] => Proto.run () BtcDiffDrv.step
   | _ => IO.eprintln "usage: drv_eth <family>"
